@@ -2,10 +2,13 @@ package main
 
 import (
 	"fmt"
+	"go/constant"
 	"go/ast"
 	"go/token"
 	"go/types"
 	"strings"
+
+	"golang.org/x/tools/go/ssa"
 
 	"golang.org/x/tools/go/packages"
 )
@@ -390,19 +393,22 @@ func checkC11(c *Ctx) {
 			continue
 		}
 		usesKeyOrder, rangesMap := false, false
-		ast.Inspect(fd.Body, func(n ast.Node) bool {
-			if rs, ok := n.(*ast.RangeStmt); ok {
-				if isMapType(p.TypesInfo.TypeOf(rs.X)) {
-					rangesMap = true
-				}
-				if sel, ok := ast.Unparen(rs.X).(*ast.SelectorExpr); ok && sel.Sel.Name == "keyOrder" {
-					if v, ok := p.TypesInfo.Uses[sel.Sel].(*types.Var); ok && v.IsField() {
+		_ = p
+		// on SSA (any loop form): a loop reads elements of the keyOrder field; no range over a Go map
+		if sf := u.ssaFunc("pkg/value", name); sf != nil {
+			for _, in := range instrsOf(sf) {
+				switch x := in.(type) {
+				case *ssa.Range:
+					if isMapType(x.X.Type()) {
+						rangesMap = true
+					}
+				case *ssa.IndexAddr:
+					if _, ok := fieldLoad(x.X, "keyOrder"); ok && loopBlock(x.Block()) {
 						usesKeyOrder = true
 					}
 				}
 			}
-			return true
-		})
+		}
 		nObs++
 		R.check(usesKeyOrder && !rangesMap, "C11.order", "pkg/value."+name, u.pos(fd.Pos()),
 			"iterates the dictionary through keyOrder", "observer of a dictionary does not iterate keyOrder (or ranges over the Go map)")
@@ -427,8 +433,59 @@ func checkC11(c *Ctx) {
 	R.min("C11.order", 5)
 
 	// ---- C11.sources
-	allowedSources := map[string]string{
-		"pkg/exec.newGetRandomFloatFunc": "取随机数 is the documented exception",
+	// the documented exception 取随机数: the functions that implement the predefined value registered under that
+	// name (found through the table of predefined values, not by function name)
+	allowedSources := map[string]string{}
+	u.buildSSA()
+	for _, g := range u.srcFuncs("pkg/exec") {
+		for _, in := range instrsOf(g) {
+			mu, ok := in.(*ssa.MapUpdate)
+			if !ok {
+				continue
+			}
+			k, isK := mu.Key.(*ssa.Const)
+			if !isK || k.Value == nil || k.Value.Kind() != constant.String || constant.StringVal(k.Value) != "取随机数" {
+				continue
+			}
+			var mark func(fn *ssa.Function, depth int)
+			mark = func(fn *ssa.Function, depth int) {
+				if fn == nil || fn.Pkg != g.Pkg || depth > 3 {
+					return
+				}
+				top := fn
+				for top.Parent() != nil {
+					top = top.Parent()
+				}
+				name := u.fname(top)
+				if _, done := allowedSources[name]; done && depth > 0 {
+					return
+				}
+				allowedSources[name] = "取随机数 is the documented exception"
+				for _, x := range instrsOf(fn) {
+					for _, op := range x.Operands(nil) {
+						switch y := (*op).(type) {
+						case *ssa.Function:
+							if x2, isCall := x.(ssa.CallInstruction); isCall && x2.Common().Value == ssa.Value(y) {
+								continue // a plain call of another function is not part of the builtin
+							}
+							mark(y, depth+1)
+						case *ssa.MakeClosure:
+							if cf, ok := y.Fn.(*ssa.Function); ok {
+								mark(cf, depth+1)
+							}
+						}
+					}
+				}
+			}
+			for _, src := range allSources(mu.Value) {
+				if call, ok := src.(*ssa.Call); ok {
+					mark(call.Call.StaticCallee(), 0)
+				}
+			}
+		}
+	}
+	if len(allowedSources) == 0 {
+		R.viol("C11.sources", "取随机数", "", "the predefined value 取随机数 was not found in the table of predefined values")
 	}
 	nSrc := 0
 	for _, rel := range corePkgs {
